@@ -84,10 +84,12 @@ def method_source(m: Dict[str, Any], as_view: bool) -> str:
         d = ['    """', f"    {doc.get('summary', 'Does something')}.", '', f"    {doc.get('long', 'A longer description.')}", '']
         if doc.get('params'):
             for pname, kind, typ, dflt in m['params']:
-                d.append(f'    :param {pname}: parameter {pname}')
+                # 'bare': a type without any description text
+                d.append(f'    :param {pname}:' + ('' if doc['params'] == 'bare' else f' parameter {pname}'))
                 d.append(f"    :type {pname}: {typ or 'object'}")
         if doc.get('returns'):
-            d.append('    :returns: the result')
+            if doc['returns'] != 'rtype':
+                d.append('    :returns: the result')
             d.append(f"    :rtype: {m.get('ret') or 'object'}")
         for e in doc.get('raises', []):
             d.append(f'    :raises {ERRORS[e].__name__}: when {e}')
